@@ -63,6 +63,8 @@ void args_run_and_judge(struct cat_command *c, const uint8_t *args, size_t n, co
                 for (int j = 0; j < nv; j++) if (memcmp(c->var[j].data, before[j], c->var[j].data_size) != 0) viol("C08", "read-only-modified", "read-only variable %d changed", j);
                 return;
         }
+        canary_check("after the WRITE line");
+        if (case_failed()) return;
         struct ref_wres res; ref_parse_args(c, args, n, &res);
         if (res.unspecified) { CNT("lines_in_unspecified_cell_skipped"); return; }
         CNT("lines_judged");
